@@ -355,7 +355,10 @@ Definition step_op (rec : evalfn) (target : val) (cells : list cell) (i : Z) (co
     Ok (inr (VList 0 vs))
   else if String.eqb code "(" then
     match a with
-    | ECall vs => do v <- call_val cur vs; Ok (inl v)
+    | ECall vs =>
+        (* the call arm wraps cur and the arguments in Call, which runs arg_val over them itself; when _t_eval has already run
+           arg_val over them (generated flag), their VALUES go through it a second time: list / dict / tuple / set values rebuilt *)
+        do v <- call_val cur (if call_args_reevaluated then map rebuild vs else vs); Ok (inl v)
     | _ => Unmodelled "arg-shape" end
   else
     (* arithmetic: the generated arm table decides; an opcode without an arm falls through the
